@@ -23,8 +23,8 @@ SPEC("pane.convert", "into_data",
      raises=(lambda val, ty, custom, exc: exc_is(exc, TypeError) or exc_is(exc, UnsupportedAnnotation), ["C05"]))
 
 SPEC("pane.convert", "from_data",
-     returns_iff=(lambda val, ty, custom: acc(mkconv(ty, handlers_of(custom)), val), ["C01", "C03"]),
-     ensures=[(lambda val, ty, custom, result: result == out(mkconv(ty, handlers_of(custom)), val), ["C01", "C18"], "val")],
+     returns_iff=(lambda val, ty, custom: acc(mkconv(ty, handlers_of(custom)), val), ["C01", "C03", "C05", "C06"]),
+     ensures=[(lambda val, ty, custom, result: result == out(mkconv(ty, handlers_of(custom)), val), ["C01", "C18", "C05", "C06"], "val")],
      raises=(lambda val, ty, custom, exc: (exc_is(exc, ConvertError) and exc.tree == err(mkconv(ty, handlers_of(custom)), val))
              or exc_is(exc, TypeError) or exc_is(exc, UnsupportedAnnotation), ["C04", "C03"]))
 
@@ -56,3 +56,10 @@ SPEC("pane.convert", "ConverterHandlers._process",
 SPEC("pane.convert", "_make_converter_key_f",
      ensures=[(lambda ty, handlers, result: slen(result) == 2 and sat(result, 0) == id_of(ty) and sat(result, 1) is handlers, ["C10"], "key")],
      no_raise=["C10"])
+
+
+# ConverterHandlers is a frozen dataclass: equality and hash are field-wise (they are cache-key components, C10). If somebody
+# writes them by hand they must still distinguish call-level from class-local handlers.
+SPEC("pane.convert", "ConverterHandlers.__eq__", optional=True,
+     ensures=[(lambda self, other, result: implies(isinstance(other, ConverterHandlers),
+                                                   truthy(result) == (self.globals == other.globals and self.class_local == other.class_local)), ["C10", "C18"], "fieldwise")])
